@@ -42,7 +42,9 @@ def gen_item(rng, ordered=True):
 
 
 def gen_grammar(rng):
-    """An expression of the documented grammar item(,item)*."""
+    """An expression of the documented language: !v (8%) or item(,item)*."""
+    if rng.random() < 0.08:
+        return ("!%d" % num_pool(rng)).encode()
     n = rng.choice([1, 1, 1, 2, 2, 3, 4])
     return ",".join(gen_item(rng) for _ in range(n)).encode()
 
